@@ -236,15 +236,30 @@ func annotationsDoc(keys, vals []string) []any {
 }
 
 // nativeKey: a real key and certificate chain of the key spec (native runs exercise the real envelopes).
+// One key per key spec and test process: testhelper generates a fresh RSA key on every call.
 func nativeKey(ksIdx int) (crypto.PrivateKey, []*x509.Certificate) {
+	if c := nativeKeys[ksIdx]; c != nil {
+		return c.key, c.chain
+	}
+	c := &nativeKeyChain{}
 	switch ksIdx {
 	case 0, 1, 2:
 		t := testhelper.GetRSACertTuple([]int{2048, 3072, 4096}[ksIdx])
-		return t.PrivateKey, []*x509.Certificate{t.Cert, testhelper.GetRSARootCertificate().Cert}
+		c.key, c.chain = t.PrivateKey, []*x509.Certificate{t.Cert, testhelper.GetRSARootCertificate().Cert}
+	default:
+		t := testhelper.GetECCertTuple([]elliptic.Curve{elliptic.P256(), elliptic.P384(), elliptic.P521()}[ksIdx-3])
+		c.key, c.chain = t.PrivateKey, []*x509.Certificate{t.Cert, testhelper.GetECRootCertificate().Cert}
 	}
-	t := testhelper.GetECCertTuple([]elliptic.Curve{elliptic.P256(), elliptic.P384(), elliptic.P521()}[ksIdx-3])
-	return t.PrivateKey, []*x509.Certificate{t.Cert, testhelper.GetECRootCertificate().Cert}
+	nativeKeys[ksIdx] = c
+	return c.key, c.chain
 }
+
+type nativeKeyChain struct {
+	key   crypto.PrivateKey
+	chain []*x509.Certificate
+}
+
+var nativeKeys [6]*nativeKeyChain
 
 var nativeSig []byte
 var nativeMT string
